@@ -155,3 +155,31 @@ func (a *restAPI) SetReplicaMode(mode string) error { return a.rem.SetReplicaMod
 func (a *restAPI) SetCheckpoint(name string) error  { return a.rem.SetCheckpoint(name) }
 func (a *restAPI) SetRebuilding(b bool) error       { return a.rem.SetRebuilding(b) }
 func (a *restAPI) SetRevisionCounter(n int64) error { return a.rem.SetRevisionCounter(n) }
+
+// restView (oracle "restview", REST runs): what GET /v1/replicas/1 reports - read through the real ReplicaClient - must
+// be what the replica holds: the revision counter (also while the replica is closed: the persisted value), the chain
+// while it is open, the size.
+func (x *inst) restView() {
+	if !x.cfg.ViaREST || x.m.Deleted {
+		return
+	}
+	x.api()
+	r, err := x.rest.rc.GetReplica()
+	if err != nil {
+		x.violate("rest-view", "rest-get-failed", "GET /v1/replicas/1 failed: "+err.Error())
+		return
+	}
+	x.cnt["rest_view_checks"]++
+	m := x.m
+	if x.wants("rev") && r.RevisionCounter != fmt.Sprint(m.Rev) {
+		x.violate("rest-view", "rest-revision-counter", fmt.Sprintf("GET /v1/replicas/1 reports revision counter %q, the replica holds %d (open=%v)", r.RevisionCounter, m.Rev, m.Open))
+	}
+	if want := fmt.Sprint((len(m.Live)) * Sector); r.Size != want {
+		x.violate("rest-view", "rest-size", fmt.Sprintf("GET /v1/replicas/1 reports size %q, the volume has %s bytes", r.Size, want))
+	}
+	if m.Open {
+		if got, want := fmt.Sprint(r.Chain), fmt.Sprint(x.chainNames()); got != want {
+			x.violate("rest-view", "rest-chain", fmt.Sprintf("GET /v1/replicas/1 reports chain %s, the replica has %s", got, want))
+		}
+	}
+}
